@@ -253,7 +253,7 @@ class Pslide(ListPattern):
                             lst[bi.mod(pos + j, size)], inval)
                 else:
                     for j in range(lval):
-                        if pos + j < size:
+                        if 0 <= pos + j < size:
                             inval = yield from stm.embed(
                                 lst[pos + j], inval)
                         else:
